@@ -530,7 +530,7 @@ def attr_model(I, obj, name):
     if isinstance(obj, (SStr,)) or (isinstance(obj, (bytes, str)) and name in _STR_METHODS):
         return str_method(I, obj, name)
     if isinstance(obj, SBytes):
-        return NotImplemented
+        return sbytes_method(I, obj, name)
     if isinstance(obj, list):
         return list_method(I, obj, name)
     if isinstance(obj, dict):
@@ -542,6 +542,66 @@ def attr_model(I, obj, name):
 
 def setattr_model(I, obj, name, val):
     return NotImplemented
+
+
+def sbytes_method(I, b, name):
+    """methods of array-bytes: index(one byte[, start])"""
+    def index(I_, a, k):
+        sub = a[0]
+        if not (isinstance(sub, bytes) and len(sub) == 1):
+            raise Undecided("bytes.index of a symbolic or multi-byte needle")
+        ch = sub[0]
+        start = to_z3_int(a[1]) if len(a) > 1 else z3.IntVal(0)
+        n = to_z3_int(b.length)
+        if len(a) > 2:
+            raise Undecided("bytes.index with end")
+        if I.path.branch(z3.Or(start < 0, start > n)):
+            raise Undecided("bytes.index with a start outside 0..len")
+        j = z3.Int(fresh_name("ix"))
+        if I.path.choose(2) == 1:
+            I.path.assume(z3.ForAll([j], z3.Implies(z3.And(j >= start, j < n), b.at(j) != ch)))
+            raise PyRaise(ValueError("subsection not found"), ValueError)
+        c = z3.Int(fresh_name("idx"))
+        I.path.assume(z3.And(c >= start, c < n, b.at(c) == ch))
+        I.path.assume(z3.ForAll([j], z3.Implies(z3.And(j >= start, j < c), b.at(j) != ch)))
+        I.ghost.setdefault("sb_index", []).append(c)
+        return c
+    if name == "index":
+        return ModelFn_("bytes.index", index)
+    return NotImplemented
+
+
+_LENIENT = (9, 10, 11, 12, 13, 32, 43, 95)     # ASCII whitespace, '+', '_': spellings int() also accepts
+
+
+def int_of_sbytes(I, b):
+    """int(<array-bytes>) for numerals of at most 3 bytes: digits, or '-' digits.  A byte that is whitespace, '+'
+    or '_' makes the result UNDECIDED unless the path condition excludes it."""
+    w = None
+    for k in range(0, 4):
+        if I.path.branch(to_z3_int(b.length) == k):
+            w = k
+            break
+    if w is None:
+        raise Undecided("int() of array-bytes longer than 3")
+    cs = [b.at(i) for i in range(w)]
+
+    def dig(c):
+        return z3.And(c >= 48, c <= 57)
+
+    def val(ds):
+        return z3.Sum([(c - 48) * 10 ** (len(ds) - 1 - i) for i, c in enumerate(ds)]) if ds else z3.IntVal(0)
+    if w >= 1 and I.path.branch(z3.And([dig(c) for c in cs])):
+        r = norm_int(val(cs))
+        I.ghost.setdefault("sb_int", []).append(r)
+        return r
+    if w >= 2 and I.path.branch(z3.And([cs[0] == 45] + [dig(c) for c in cs[1:]])):
+        r = norm_int(-val(cs[1:]))
+        I.ghost.setdefault("sb_int", []).append(r)
+        return r
+    if w >= 1 and I.path.branch(z3.Or([c == x for c in cs for x in _LENIENT])):
+        raise Undecided("int() on a numeral that may use whitespace, '+' or '_'")
+    raise PyRaise(ValueError("invalid literal for int()"), ValueError)
 
 
 _STR_METHODS = {"startswith", "endswith", "join", "split", "strip", "rstrip", "lstrip", "index", "find",
@@ -794,6 +854,8 @@ def m_int(I, a, k):
     if isinstance(v, SStr):
         from . import models_str
         return models_str.int_of_str(I, v, *a[1:])
+    if isinstance(v, SBytes) and len(a) == 1:
+        return int_of_sbytes(I, v)
     raise Undecided("int(%r)" % (v,))
 
 
